@@ -1820,6 +1820,93 @@ def stream_size_history(run, ai, fb, models, rng, tier):
                                     "driver+compare": round(_time.time() - _t2, 1)}}
 
 
+def stream_score(run, ai, fb, rng, tier):
+  """AutoQKHyperModel.adjusted_score: which metric the closure evaluates (argument forms None / "" / "accuracy" /
+  "acc" / other string / callable x label and prediction shapes) and the float32 value metric * (1.0 + delta), with
+  delta taken from a real ForgivingFactorBits object over trial sizes below / at / above the reference.  The three
+  Keras accuracies are replaced by recording stubs that return the chosen metric value, so the comparison sees the
+  selection and the arithmetic of `score` itself."""
+  import tensorflow as tf
+  picked = []
+  cur = {"m": 0.0}
+  def stub(kind):
+    def f(y_true, y_pred):
+      picked.append(kind)
+      return tf.constant(cur["m"], dtype=tf.float32)
+    return f
+  names = {"binary_accuracy": "binary", "sparse_categorical_accuracy": "sparse", "categorical_accuracy": "categorical"}
+  saved = {n: getattr(ai, n) for n in names}
+  for n, k in names.items():
+    setattr(ai, n, stub(k))
+  shapes = [((4, 1), (4, 1)), ((4,), (4, 1)), ((4, 1), (4, 10)), ((4,), (4, 10)), ((4, 10), (4, 10)),
+            ((4, 3, 1), (4, 3, 5)), ((4, 3, 5), (4, 3, 5)), ((4, 3), (4, 3, 1)), ((4, 2), (4, 2)), ((4, 1, 1), (4, 1))]
+  args = [None, "", "accuracy", "acc", "categorical_accuracy", "mse", "Accuracy", "fn"]
+  metrics = [0.0, 1.0, 0.75, 0.1, 0.3333333432674408, 0.9990000128746033]
+  lines, impls, metas = [], [], []
+  try:
+    t = fb.ForgivingFactorBits(8.0, 8.0, 2.0)
+    t.reference_size = np.float64(3408.0)
+    n_rand = 4 if tier == "quick" else 40
+    trials = sorted({1, 100, 1704, 3000, 3407, 3408, 3409, 4000, 6816, 10 ** 6} |
+                    {int(x) for x in rng.integers(1, 20000, size=n_rand)})
+    deltas = []
+    for tr in trials:
+      t.trial_size = np.int64(tr)
+      deltas.append((tr, t.delta()))
+    for arg in args:
+      for (ys, ps) in shapes:
+        yt = tf.zeros(ys, tf.float32); yp = tf.zeros(ps, tf.float32)
+        for m in metrics:
+          prev = None
+          for tr, d in deltas:
+            cur["m"] = m
+            del picked[:]
+            if arg == "fn":
+              def custom(y_true, y_pred):
+                picked.append("custom")
+                return tf.constant(cur["m"], dtype=tf.float32)
+              fn = ai.AutoQKHyperModel.adjusted_score(None, d, custom)
+            else:
+              fn = ai.AutoQKHyperModel.adjusted_score(None, d, arg)
+            out = fn(yt, yp)
+            val = float(np.asarray(out))
+            kind = picked[0] if len(picked) == 1 else "calls=%r" % (picked,)
+            key = ("score", repr(arg), ys, ps)
+            m32 = float(np.float32(m))
+            lines.append({"op": "score", "metric_arg": (None if arg is None else 0 if arg == "fn" else arg),
+                          "yt_rank": len(ys), "yp_rank": len(ps), "yt_last": ys[-1], "yp_last": ps[-1],
+                          "metric": core.rj(m32), "delta": core.rj(float(d))})
+            impls.append({"kind": kind, "score": core.rj(val)})
+            metas.append(key + (m, tr))
+            run.count("score_" + kind)
+            # clause oracles on the real values
+            site = {"site": "adjusted_score", "arg": repr(arg)}
+            det = {"shapes": [list(ys), list(ps)], "metric": m32, "trial": tr, "ref": 3408.0, "delta": float(d), "score": val}
+            if str(out.dtype.name) != "float32":
+              run.violate("score_dtype", site, dict(det, dtype=str(out.dtype.name)), True)
+            if tr == 3408 and val != m32:
+              run.violate("score_at_reference", site, det, True)
+            if m32 > 0 and tr < 3400 and not val > m32:
+              run.violate("score_smaller_higher", site, det, True)
+            if m32 > 0 and tr > 3416 and not val < m32:
+              run.violate("score_larger_lower", site, det, True)
+            if prev is not None and m32 > 0 and not prev[1] >= val:
+              run.violate("score_monotone", site, dict(det, prev_trial=prev[0], prev_score=prev[1]), True)
+            prev = (tr, val)
+  finally:
+    for n, f in saved.items():
+      setattr(ai, n, f)
+  outs = core.run_driver("C20", lines)
+  for line, impl, o, meta in zip(lines, impls, outs, metas):
+    run.case(meta)
+    run.compared += 1
+    got = {"kind": o["kind"], "score": o["score"]}
+    if got != impl:
+      run.disagree("score", {"params": [repr(x) for x in meta], "line": line}, impl, got)
+  run.assumptions.append("adjusted_score: the three Keras accuracy functions are replaced by recording stubs (their "
+                         "own arithmetic is Keras code, outside the model); float32 product in the normal range")
+
+
 def run(run: core.Run, tier: str):
   core.assert_repo_import()
   import qkeras.autoqkeras.autoqkeras_internal as ai
@@ -1841,7 +1928,8 @@ def run(run: core.Run, tier: str):
       "compute_model_size on reference, model_quantize'd and hand-built mixed models x 4 size configurations; "
       "size HISTORIES (szhist): get_reference then get_trial on filter-tuned trials (every filter factor, partial "
       "limits), same-named rebuilt models, partially quantized copies, on one object per reference x size "
-      "configuration x route, a trial before the reference on every other object")
+      "configuration x route, a trial before the reference on every other object; adjusted_score (metric selection over "
+      "8 argument forms x 10 shape pairs, float32 metric * (1 + delta) over trial sizes around the reference)")
   import time
   walls = {}
   t0 = time.time()
@@ -1855,6 +1943,7 @@ def run(run: core.Run, tier: str):
   stream_delta(run, fb, rng, tier)
   stream_delta_models(run, ai, fb, models, default_cfg)
   stream_ff_api(run, ai, fb, models, rng, tier)
+  stream_score(run, ai, fb, rng, tier)
   walls["delta"] = round(time.time() - t0, 1); t0 = time.time()
   stream_size_history(run, ai, fb, models, rng, tier)
   walls["szhist"] = round(time.time() - t0, 1); t0 = time.time()
